@@ -40,7 +40,7 @@ def errName : HsErr → String
   | .uncovered => "panic:uncovered"
   | .noSeenCommit => "panic:no-seen-commit"
 
-def triple (d : Disk) : String := s!"{d.store}/{d.st}/{d.app}"
+def triple (d : Core) : String := s!"{d.store}/{d.st}/{d.app}"
 
 def splitOnce (s : String) (c : Char) : Option (String × String) :=
   match s.splitOn (String.singleton c) with
@@ -155,13 +155,13 @@ def opCrash (s : DState) (toks : List String) : DState × String :=
     | none => (s, "err:noevent")
     | some j =>
       let p := applyAll b.start ((b.evs.take j).map (·.ev))
-      let pre := s!"pre={triple p}"
+      let pre := s!"pre={triple p.toCore}"
       match mkBoot s [] p with
       | .error e => ({ s with cur := some ⟨p, [], true, 0⟩ }, s!"{pre} hs={errName e}")
       | .ok (nb, hsEvs, d1) =>
         let m := if hasMark p.wal (d1.st + 1) then 1 else 0
-        let inits := if (applyAll p (preludeEvs p)).app == 0 then 1 else 0
-        let head := s!"{pre} m={m} pv={p.pv.h}/{p.pv.r}/{p.pv.s} hs={countCommits hsEvs}/{inits} post={triple d1} hash={d1.stHash}"
+        let inits := if p.app == 0 then 1 else 0
+        let head := s!"{pre} m={m} pv={p.pv.h}/{p.pv.r}/{p.pv.s} hs={countCommits hsEvs}/{inits} post={triple d1.toCore} hash={d1.stHash}"
         if nb.dead then
           ({ s with cur := some nb }, s!"{head} live=stuck end=-")
         else
@@ -169,7 +169,7 @@ def opCrash (s : DState) (toks : List String) : DState × String :=
           ({ s with cur := some nb }, s!"{head} live=ok end={s.script.length}/{fin.appHash}")
   | _, _ => (s, "err:badop")
 
-def hashAfter (r : Disk) (k : Nat) : Nat := (r.blocks.take k).foldl (fun h b => execTxs h b.txs) 0
+def hashAfter (r : Disk) (k : Nat) : Nat := chainHash (r.blocks.take k)
 
 def opMix (s : DState) (toks : List String) : DState × String :=
   match s.ref, toks with
@@ -177,8 +177,8 @@ def opMix (s : DState) (toks : List String) : DState × String :=
     match parseNat b, parseNat st, parseNat a with
     | some b, some st, some a =>
       if b > r.store ∨ st > r.store ∨ a > r.store then (s, "err:badop") else
-      let d : Disk := { r with blocks := r.blocks.take b, pend := 0, st := st, stHash := hashAfter r st,
-                               resp := (List.range (st + 1)).reverse, app := a, appHash := hashAfter r a }
+      let d : Core := { r.toCore with blocks := r.blocks.take b, st := st, stHash := hashAfter r st,
+                                      resp := (List.range (st + 1)).reverse, app := a, appHash := hashAfter r a }
       match newNode d with
       | .error e => (s, s!"hs={errName e}")
       | .ok (evs, d1) =>
